@@ -619,6 +619,15 @@ func (p *Path) violation(kind, label, msg, site string, cond *Term) {
 		}
 	} else {
 		m = p.anyModel()
+		if m == nil {
+			// feasibility of this path was never positively established (an earlier query was
+			// "unknown"): decide it now with the long timeout; an infeasible path is not a violation
+			r, mm := p.oneShot(p.tt.True(), p.eng.cfg.AssertTimeoutMs)
+			if r == "unsat" {
+				panic(pathEnd{endAssumeFalse, "infeasible path (late)"})
+			}
+			m = mm
+		}
 	}
 	v := &Violation{Label: label, Kind: kind, Msg: msg, Site: site, Model: m, Decisions: string(p.dec)}
 	p.res.Violations = append(p.res.Violations, v)
